@@ -332,12 +332,11 @@ QueryExact(q) ==
   /\ UNCHANGED <<gates, reg, tn, tnv, ver, perm, phys, ctr, cell, info, other>> /\ rej' = FALSE
 \* local_expectation_canonical(G, where, info=gate_opts['info']): trusts the recorded centre, moves the centre to
 \* `where` and records it.  With dtype= / convert_eager=False it works on a COPY of the MPS but still writes the
-\* shared record (q.viacopy; deviation "expec-copy-info", KF-C07-9).
+\* shared record (q.viacopy; deviation "expec-copy-info", was KF-C07-9).
 Sound == info[cell] = 0 - 1 \/ ctr = 0 - 1 \/ info[cell] = ctr
 ViaCopy(q) == "viacopy" \in DOMAIN q /\ q.viacopy
 QueryPerm(q) ==
   /\ PermC /\ q.kind \in {"dense", "expec", "amp"}
-  /\ ViaCopy(q) => "expec-copy-info" \in Deviations
   /\ LET pw == IF q.kind = "expec" THEN [i \in 1..Len(q.where) |-> IndexOf(perm, q.where[i])] ELSE <<0>>
          w0 == IF Len(pw) = 1 THEN pw[1] ELSE Min(pw[1], pw[2]) IN
      /\ qok' = IF Record THEN TRUE
@@ -345,7 +344,10 @@ QueryPerm(q) ==
                ELSE IF q.kind = "amp" THEN Amp(Logical(phys, perm), q.b) = QRef(q, reg, gates)
                ELSE Sound /\ Expec(phys, OpM(q.op), pw, N) = QRef(q, reg, gates)
      /\ ctr' = IF q.kind = "expec" /\ ~ViaCopy(q) THEN w0 ELSE ctr
-     /\ info' = IF q.kind = "expec" THEN [info EXCEPT ![cell] = w0] ELSE info
+     \* (fixed in /repo: a converted copy gets a private copy of the record; before, the object's record was
+     \*  overwritten - deviation "expec-copy-info", self-test MC_dev_expeccopy)
+     /\ info' = IF q.kind = "expec" /\ (~ViaCopy(q) \/ "expec-copy-info" \in Deviations)
+                THEN [info EXCEPT ![cell] = w0] ELSE info
   /\ UNCHANGED <<gates, reg, tn, tnv, ver, perm, phys, cell, other, store, sng, mss, fresh>> /\ rej' = FALSE
 Query(q) == (QueryExact(q) \/ QueryPerm(q)) /\ Bump([op |-> "query", q |-> q])
 
